@@ -326,6 +326,25 @@ pub fn wal_read_segment(path: &Path) -> std::io::Result<(Vec<Vec<u8>>, WalReadEn
 	}
 }
 
+/// Like [`wal_read_segment`] but also returns, per record, the file offset just past it.
+pub fn wal_read_segment_with_offsets(path: &Path) -> std::io::Result<(Vec<(Vec<u8>, u64)>, WalReadEnd)> {
+	let file = std::fs::File::open(path)?;
+	let mut reader = crate::wal::reader::Reader::new(file);
+	let mut out = Vec::new();
+	loop {
+		match reader.read() {
+			Ok((rec, off)) => out.push((rec.to_vec(), off)),
+			Err(crate::wal::Error::IO(e)) if e.kind() == std::io::ErrorKind::UnexpectedEof => {
+				return Ok((out, WalReadEnd::Eof));
+			}
+			Err(crate::wal::Error::Corruption(c)) => {
+				return Ok((out, WalReadEnd::Corruption(c.offset, c.to_string())));
+			}
+			Err(e) => return Ok((out, WalReadEnd::Other(e.to_string()))),
+		}
+	}
+}
+
 /// Run the real segment repair.
 pub fn wal_repair_segment(wal_dir: &Path, segment_id: usize) -> Result<()> {
 	crate::wal::recovery::repair_corrupted_wal_segment(wal_dir, segment_id)
